@@ -66,7 +66,7 @@ def cases(rng, tier):
         u = rng.random()
         prog = _sel_write_read(rng) if u < 0.3 else (proggen.gen_resample_program(rng) if u < 0.4 else
                                                      proggen.gen_program(rng, rng.randint(2, 9), chain=(u > 0.7)))
-        nvars = sum(1 for s in prog if s["s"] not in ("assign", "poke", "read", "read_idx", "read_sum", "read_meta"))
+        nvars = sum(1 for s in prog if s["s"] not in ("assign", "poke", "fill", "read", "read_idx", "read_sum", "read_meta", "read_col"))
         extra = {}
         for _ in range(rng.randint(1, 6)):
             pos = rng.randint(1, len(prog) - 1) if len(prog) > 1 else 0
